@@ -46,11 +46,12 @@ CLAIMED = {
              '(ties only among size-1 dimensions), reported sizes = number of distinct indices = dimension sizes, closed form of the cyclic '
              'change count, and the grid described by the computed order is the stored grid; get_unit_values (orientation given) on a grid in any '
              'storage order with ANY value function returns exactly one value per index in index order (C09_unit_values_exact; the row algorithm is '
-             'proved on every row of the tile / repeat form, which also covers sliced grids). create_spec_inds_from_vals and the accessors are '
-             'modelled as written and validated against the code in coqc; an independent oracle judges every output.',
+             'proved on every row of the tile / repeat form, which also covers sliced grids); create_spec_inds_from_vals rebuilds exactly the index '
+             'matrix of a grid whose values are distinct per dimension (C09_indices_rebuilt_from_values; the column loop is the mixed-radix '
+             'successor). All functions and the accessors are also modelled as written and validated against the code in coqc; an independent '
+             'oracle judges every output.',
         design='5/C09',
-        note='Trusted: Coq kernel, numpy unique/where/diff/argsort as mirrored, harness. Partial: the values->indices rebuild '
-             '(create_spec_inds_from_vals) has an executable model tied by correspondence but no grid theorem. Open known findings: every place where the '
+        note='Trusted: Coq kernel, numpy unique/where/diff/argsort as mirrored, harness. The theorems assume the orientation is given / not more dimensions than points. Open known findings: every place where the '
              'orientation of a matrix is guessed from its shape fails for as many / more dimensions than points (listed per call site).',
         technique='Coq proof (change-count counting lemma, sorted-permutation uniqueness) + in-Coq correspondence evaluation'),
     'C10': dict(
